@@ -12,6 +12,7 @@ import z3
 from .core import (Val, Sc, RefV, NoneV, TupleV, Cont, PyConst, FuncV, CellLoc, FieldLoc, ItemLoc, ElemLoc, TermLoc,
                    Outcome, VCError, fresh)
 from .types import (T, INT, REAL, BOOL, STR, BYTES, IDENT, ANYREF, Ref, Str, Ident, ident_of, NONE, ref)
+from .core import VCError as _VCE
 from .execbase import Frame
 from . import core as _core
 
@@ -28,10 +29,13 @@ class CompMixin:
         s = st.fork()
         s.locals = dict(st.locals)
         n0 = len(s.pc)
+        self._comp_n0 = n0
         bvs = []
         guards = []
         self._comp_mem = []      # indexes of membership guards (facts are asserted under these only)
         self._comp_trig = []     # one trigger term per generator
+        self._comp_marks = []    # (index into FRESH_LOG, number of bound variables in scope from there on)
+        self._comp_pc_marks = []  # (index into the scratch pc, number of bound variables in scope from there on)
         listgen = None
         for gi, g in enumerate(generators):
             itv = first_iter if gi == 0 else self.ev1(g.iter, s, frame)
@@ -81,6 +85,8 @@ class CompMixin:
                     listgen = j
             else:
                 raise VCError('comprehension over %r' % (itv,))
+            self._comp_marks.append((len(_core.FRESH_LOG), len(bvs)))
+            self._comp_pc_marks.append((len(s.pc), len(bvs)))
             for s2 in self.assign(g.target, x, s, frame, g.iter):
                 pass
             for cnd in g.ifs:
@@ -96,10 +102,39 @@ class CompMixin:
         if not new or not bvs:
             return terms
         sub = []
-        for c in new:
-            f = z3.Function('L' + c.decl().name(), *[b.sort() for b in bvs], c.sort())
-            sub.append((c, f(*bvs)))
+        marks = getattr(self, '_comp_marks', [])
+        for idx, c in enumerate(new, start):
+            # a constant depends on the bound variables that existed when it was created
+            nb = 0
+            for fresh_index, nbv in marks:
+                if idx >= fresh_index:
+                    nb = nbv
+            deps = bvs[:nb] if marks else bvs
+            if not deps:
+                continue
+            f = z3.Function('L' + c.decl().name(), *[b.sort() for b in deps], c.sort())
+            sub.append((c, f(*deps)))
+        if not sub:
+            return terms
         return [z3.substitute(t, *sub) if t is not None else None for t in terms]
+
+    def assert_facts(self, st, bvs, guards, facts):
+        """facts[k] was assumed at scratch-pc index n0+k: it depends on the bound variables in scope at that
+        point and holds under the membership guards of those generators only"""
+        mem = [guards[i] for i in self._comp_mem]
+        for k, f in enumerate(facts):
+            idx = self._comp_n0 + k
+            nb = 0
+            for pc_index, nbv in self._comp_pc_marks:
+                if idx >= pc_index:
+                    nb = nbv
+            if nb == 0:
+                st.assume(f)
+                continue
+            trig = [t for t in self._comp_trig[:nb] if t is not None]
+            pats = ([z3.MultiPattern(*trig)] if len(trig) > 1 else trig) if len(trig) == nb else []
+            st.assume(z3.ForAll(bvs[:nb], z3.Implies(z3.And(*mem[:nb]) if mem[:nb] else z3.BoolVal(True), f),
+                                patterns=pats))
 
     def comp_pats(self):
         ts = [t for t in self._comp_trig if t is not None]
@@ -132,9 +167,65 @@ class CompMixin:
             self.pend_raise(st, cond, o.exc, frame, o.node)
         return res[0][1]
 
+    def comp_heap_effects(self, s, st, bvs, guards):
+        """Objects constructed by the element expression (one per generator tuple): transfer the initialisation
+        of their own fields from the scratch state to the real state."""
+        a_s = s.heap.get('$alloc')
+        a_0 = st.alloc_arr()
+        if a_s is None or a_s.eq(a_0):
+            return
+        # the scratch allocation array is Store(...Store(alloc, o1, True)..., ok, True)
+        objs = []
+        t = a_s
+        while z3.is_store(t):
+            objs.append(t.arg(1))
+            t = t.arg(0)
+        if not t.eq(a_0):
+            raise VCError('allocation inside a comprehension could not be summarised')
+        start = self._comp_fresh_start
+        G = z3.And(*guards) if guards else z3.BoolVal(True)
+        GM = z3.And(*[guards[i] for i in self._comp_mem]) if self._comp_mem else z3.BoolVal(True)
+        lifted_objs = self.lift_fresh(start, bvs, objs)
+        Gl = self.lift_fresh(start, bvs, [G])[0]
+        x = z3.Const('x!ca', Ref)
+        a_n = fresh('alloc', a_0.sort())
+        st.assume(z3.ForAll([x], z3.Implies(z3.Select(a_0, x), z3.Select(a_n, x)), patterns=[z3.Select(a_0, x)]))
+        for o in lifted_objs:
+            st.assume(z3.ForAll(bvs, z3.Implies(Gl, z3.And(z3.Select(a_n, o), z3.Not(z3.Select(a_0, o)), o != NONE)),
+                                patterns=[o]))
+            # distinct tuples give distinct objects
+            b2 = [z3.Const(b.decl().name() + '!2', b.sort()) for b in bvs]
+            o2 = z3.substitute(o, *zip(bvs, b2))
+            st.assume(z3.ForAll(bvs + b2, z3.Implies(o == o2, z3.And(*[p == q for p, q in zip(bvs, b2)])),
+                                patterns=[z3.MultiPattern(o, o2)]))
+        st.heap['$alloc'] = a_n
+        for fid, hs in s.heap.items():
+            if fid == '$alloc':
+                continue
+            h0 = st.heap.get(fid)
+            if h0 is None:
+                h0 = self.ctx.heap0.get(fid)
+            if h0 is not None and hs.eq(h0):
+                continue
+            stores = []
+            t = hs
+            while z3.is_store(t):
+                stores.append((t.arg(1), t.arg(2)))
+                t = t.arg(0)
+            if h0 is None or not t.eq(h0) or not all(any(o.eq(ob) for ob in objs) for o, v in stores):
+                raise VCError('heap effect inside a comprehension on a pre-existing object (field %s)' % fid)
+            hn = fresh('Hc_' + fid, hs.sort())
+            st.assume(z3.ForAll([x], z3.Implies(z3.Select(a_0, x), z3.Select(hn, x) == z3.Select(h0, x)),
+                                patterns=[z3.Select(hn, x)]))
+            for o, v in stores:
+                lo, lv = self.lift_fresh(start, bvs, [o, v])
+                st.assume(z3.ForAll(bvs, z3.Implies(Gl, z3.Select(hn, lo) == lv), patterns=[z3.Select(hn, lo)]))
+            st.heap[fid] = hn
+
     def ev_ListComp(self, node, st, frame):
         bvs, guards, s, n0, listgen = self.comp_domain(node.generators, st, frame)
         elem = self.comp_eval(node.elt, s, frame, st, bvs, guards)
+        self.comp_heap_effects(s, st, bvs, guards)
         facts = s.pc[n0:]
         et = elem.t
         if isinstance(elem, RefV) and elem.t.cls == 'object':
@@ -143,6 +234,7 @@ class CompMixin:
         eterm = self.term(elem, s, et)
         lifted = self.lift_fresh(self._comp_fresh_start, bvs, [eterm] + guards + facts)
         eterm, guards, facts = lifted[0], lifted[1:1 + len(guards)], lifted[1 + len(guards):]
+        self._comp_trig = self.lift_fresh(self._comp_fresh_start, bvs, self._comp_trig)
         uid = next(_n)
         n = fresh('cn', z3.IntSort())
         arr = fresh('carr', z3.ArraySort(z3.IntSort(), et.sort()))
@@ -154,8 +246,7 @@ class CompMixin:
         sub = [(b, f(j)) for b, f in zip(bvs, srcs)]
         st.assume(n >= 0)
         if facts:
-            GM = z3.And(*[guards[i] for i in self._comp_mem]) if self._comp_mem else z3.BoolVal(True)
-            st.assume(z3.ForAll(bvs, z3.Implies(GM, F), patterns=self.comp_pats()) if bvs else z3.Implies(GM, F))
+            self.assert_facts(st, bvs, guards, facts)
         st.assume(z3.ForAll([j], z3.Implies(z3.And(0 <= j, j < n),
                                             z3.And(z3.substitute(G, *sub),
                                                    z3.Select(arr, j) == z3.substitute(eterm, *sub),
@@ -205,6 +296,7 @@ class CompMixin:
         lifted = self.lift_fresh(self._comp_fresh_start, bvs, [kt, vt0, kv0] + guards + facts)
         kt, vt0, kv0 = lifted[0], lifted[1], lifted[2]
         guards, facts = lifted[3:3 + len(guards)], lifted[3 + len(guards):]
+        self._comp_trig = self.lift_fresh(self._comp_fresh_start, bvs, self._comp_trig)
         ks = kt.sort()
         has = fresh('chas', z3.ArraySort(ks, z3.BoolSort()))
         G = z3.And(*guards) if guards else z3.BoolVal(True)
@@ -214,8 +306,7 @@ class CompMixin:
         sub = [(b, f(k)) for b, f in zip(bvs, wit)]
         parts = [has]
         if facts:
-            GM = z3.And(*[guards[i] for i in self._comp_mem]) if self._comp_mem else z3.BoolVal(True)
-            st.assume(z3.ForAll(bvs, z3.Implies(GM, F), patterns=self.comp_pats()) if bvs else z3.Implies(GM, F))
+            self.assert_facts(st, bvs, guards, facts)
         st.assume(z3.ForAll(bvs, z3.Implies(G, z3.Select(has, kt)), patterns=self.comp_pats()))
         st.assume(z3.ForAll([k], z3.Implies(z3.Select(has, k),
                                             z3.And(z3.substitute(G, *sub), z3.substitute(kt, *sub) == k)),
